@@ -54,12 +54,14 @@ OrderFreeKind(n) ==
 KindOf(o) ==
   CASE o \in {"pa", "pb", "pc"} -> "pool"
     [] o \in {"l2a", "l2b", "l2c"} -> "l2adv"
+    [] o = "bga" -> "bgpadv"
+    [] o = "bfd" -> "bfd"
     [] o = "n1" -> "node"
     [] o = "nsx" -> "namespace"
     [] o = "sec" -> "secret"
     [] o = "cm" -> "configmap"
     [] o = "com" -> "community"
-    [] o = "peer" -> "peer"
+    [] o \in {"peer", "peerh", "peerp"} -> "peer"
 
 OfKind(S, k) == {o \in S : KindOf(o) = k}
 
@@ -69,9 +71,9 @@ OfKind(S, k) == {o \in S : KindOf(o) = k}
 (* and unselected namespaces never show)                                    *)
 Value(rec, present, ver) ==
   LET pools == OfKind(present, "pool")
-      advs == IF rec = "config" /\ pools # {} THEN OfKind(present, "l2adv") ELSE {}
+      advs == IF rec # "pool" /\ pools # {} THEN OfKind(present, "l2adv") \cup OfKind(present, "bgpadv") ELSE {}
       nodes == IF advs # {} THEN OfKind(present, "node") ELSE {}
-      peers == IF rec = "config" THEN OfKind(present, "peer") ELSE {}
+      peers == IF rec # "pool" THEN OfKind(present, "peer") ELSE {}
   IN [objs |-> pools \cup advs \cup nodes \cup peers, pa |-> IF "pa" \in present THEN ver ELSE 0]
 
 =============================================================================
